@@ -9,13 +9,20 @@
   yields the same symbol table and URL as the original download."
 
   The theorems are about `MdModel.CacheFs` (the state machine of `locate_symbols` /
-  `fetch_symbol_file` / `commit_cache_file` over an abstract file system) for an ARBITRARY parser
-  model `P` satisfying `ParserLaws P` (three theorems of the C09/C10 parser model, assumed here by
-  name: `callback_prefix`, `chunk_independent`, `info_url_trailer`), for ANY list of events (network
-  outcomes, i/o failures of the caching side, the drop point) and, where stated for a `World`, for
-  any number of concurrent calls of the same process under ANY interleaving.
-  `MdProofs.Lemmas.CacheFsToy` proves `ParserLaws` for the instance the compiled model runs, so the
-  hypotheses are inhabited (examples at the end).
+  `fetch_symbol_file` / `commit_cache_file` over an abstract file system), for ANY list of events
+  (network outcomes, i/o failures of the caching side, the drop point) and, where stated for a
+  `World`, for any number of concurrent calls of the same process under ANY interleaving.
+  They are stated twice:
+    * for an ARBITRARY parser model `P` satisfying the interface `ParserLaws P` (`callback_prefix`,
+      `chunk_independent`, `info_url_trailer`) — sections "cache_inv" … "cached_equals_original";
+    * for the REAL parser — `Real.model`: the byte-level model of the Breakpad symbol parser of
+      C09/C10 (`MdModel.SymLine`, `MdModel.SymParse`) inside the loop of `parse_async`
+      (`MdModel.Stream` blocks) — with NO assumed law: `MdProofs.Lemmas.CacheFsReal` proves
+      `ParserLaws Real.model` (`Real.laws`; `callback_prefix` and `chunk_independent` from C10's
+      machinery, `info_url_trailer` from the parser model, `MdProofs.Lemmas.SymTrailer`) — section
+      "the real parser". This is the instance the compiled model runs in the correspondence check.
+  `MdProofs.Lemmas.CacheFsToy` proves the laws for a small line-buffering instance as well, on which
+  the concrete runs at the end are decided by evaluation.
 
   What no theorem here shows (level: proof, PARTIAL): crashes of the process or the OS between
   `write` and `rename`, other processes sharing the cache directory, and file-system specific
@@ -24,6 +31,8 @@
 -/
 import MdProofs.Lemmas.CacheFs
 import MdProofs.Lemmas.CacheFsToy
+import MdProofs.Lemmas.CacheFsReal
+import MdProofs.Lemmas.CacheFsFile
 namespace MdModel.CacheFs
 
 variable {P : ParserModel}
@@ -328,31 +337,13 @@ def Result.sym (P : ParserModel) : Result → Option P.Sym
   | .downloaded rx u => (P.stream rx).map fun r => P.setUrl r.2 u
   | .notFound => none
 
-/-- **cached_equals_original** — "a later lookup served from the cache without network access yields
-    the same symbol table and URL as the original download": a call ends as `downloaded rx u` and
-    has put an entry `e` at its cache path (the name was free before). Then a later call for the
-    same module with NO server configured finds `e`, and parsing `e` gives exactly the table the
-    download returned, URL included. Uses `info_url_trailer` (for URLs as `Url::to_string` writes
-    them) and `chunk_independent` (hence `hshort`: all lines of the body shorter than 80 KiB, the
-    domain on which C10 proves that the streaming parse and the parse of the file agree).
-
-    That the committed body ends in a line feed — which `info_url_trailer` needs — is established
-    by the commit step itself (`ends_with_newline`, /repo 4002240). Before that repair the real
-    parser's `Ok` for a body with an over-long unterminated last line led to an entry whose note
-    was glued to that line and lost on re-reading; this check found it (corpus case `+L170000`). -/
-theorem cached_equals_original (hl : ParserLaws P) (c : Cache) (req : Req) (es : List Ev)
-    (rx : List Bytes) (u : Url) (e : Bytes) (hu : UrlClean u) (hshort : P.shortLines (bodyOf rx))
-    (hfree : c req.path = none)
+/-- the entry a successful download leaves on a free name is the body followed by the note, and
+    that body ends in a line feed (`ends_with_newline`, /repo 4002240) -/
+theorem cached_entry_shape (hl : ParserLaws P) (c : Cache) (req : Req) (es : List Ev)
+    (rx : List Bytes) (u : Url) (e : Bytes) (hfree : c req.path = none)
     (hrun : (runTask (P := P) c req .start es).2 = .done (.downloaded rx u))
     (hentry : (runTask (P := P) c req .start es).1 req.path = some (.file e)) :
-    let c' := (runTask (P := P) c req .start es).1
-    let later : Req := { path := req.path, localHit := none, urls := [] }
-    e = bodyOf rx ++ trailer u ∧
-    step (P := P) c' later .start .lookup = (c', .done (.localFile e)) ∧
-    (∃ t, Result.sym P (.downloaded rx u) = some (P.setUrl t u)) ∧
-    Result.sym P (.localFile e) = Result.sym P (.downloaded rx u) := by
-  intro c' later
-  -- the entry is the body plus the note
+    e = bodyOf rx ++ trailer u ∧ EndsNl (bodyOf rx) := by
   have key : ∀ (es : List Ev) (c0 : Cache) (ph : Phase P), PhaseInv req ph →
       (runTask c0 req ph es).2 = .done (.downloaded rx u) →
       (runTask c0 req ph es).1 req.path = c0 req.path ∨
@@ -377,12 +368,37 @@ theorem cached_equals_original (hl : ParserLaws P) (c : Cache) (req : Req) (es :
         · exact Or.inl h1
         · exact Or.inr (Or.inl ⟨h1, hends⟩)
         · exact Or.inr (Or.inr h1)
-  have he : e = bodyOf rx ++ trailer u ∧ EndsNl (bodyOf rx) := by
-    rcases key es c .start trivial hrun with h | ⟨h, hends⟩ | h
-    · rw [h, hfree] at hentry; cases hentry
-    · rw [h] at hentry; cases hentry; exact ⟨rfl, hends⟩
-    · rw [h] at hentry; cases hentry
-  obtain ⟨he, hnl⟩ := he
+  rcases key es c .start trivial hrun with h | ⟨h, hends⟩ | h
+  · rw [h, hfree] at hentry; cases hentry
+  · rw [h] at hentry; cases hentry; exact ⟨rfl, hends⟩
+  · rw [h] at hentry; cases hentry
+
+/-- **cached_equals_original** — "a later lookup served from the cache without network access yields
+    the same symbol table and URL as the original download": a call ends as `downloaded rx u` and
+    has put an entry `e` at its cache path (the name was free before). Then a later call for the
+    same module with NO server configured finds `e`, and parsing `e` gives exactly the table the
+    download returned, URL included. Uses `info_url_trailer` (for URLs as `Url::to_string` writes
+    them) and `chunk_independent` (hence `hshort`/`hshortE`: all lines of the body, and of the entry
+    — i.e. the note too —, shorter than 80 KiB, the domain on which C10 proves that the streaming
+    parse and the parse of the file agree).
+
+    That the committed body ends in a line feed — which `info_url_trailer` needs — is established
+    by the commit step itself (`ends_with_newline`, /repo 4002240). Before that repair the real
+    parser's `Ok` for a body with an over-long unterminated last line led to an entry whose note
+    was glued to that line and lost on re-reading; this check found it (corpus case `+L170000`). -/
+theorem cached_equals_original (hl : ParserLaws P) (c : Cache) (req : Req) (es : List Ev)
+    (rx : List Bytes) (u : Url) (e : Bytes) (hu : UrlClean u) (hshort : P.shortLines (bodyOf rx))
+    (hshortE : P.shortLines (bodyOf rx ++ trailer u)) (hfree : c req.path = none)
+    (hrun : (runTask (P := P) c req .start es).2 = .done (.downloaded rx u))
+    (hentry : (runTask (P := P) c req .start es).1 req.path = some (.file e)) :
+    let c' := (runTask (P := P) c req .start es).1
+    let later : Req := { path := req.path, localHit := none, urls := [] }
+    e = bodyOf rx ++ trailer u ∧
+    step (P := P) c' later .start .lookup = (c', .done (.localFile e)) ∧
+    (∃ t, Result.sym P (.downloaded rx u) = some (P.setUrl t u)) ∧
+    Result.sym P (.localFile e) = Result.sym P (.downloaded rx u) := by
+  intro c' later
+  obtain ⟨he, hnl⟩ := cached_entry_shape hl c req es rx u e hfree hrun hentry
   obtain ⟨t, hs⟩ : ∃ t, P.stream rx = some (bodyOf rx, t) := by
     rcases downloaded_is_complete hl c req .start trivial es rx u hrun with h | ⟨_, h⟩
     · cases h
@@ -398,7 +414,405 @@ theorem cached_equals_original (hl : ParserLaws P) (c : Cache) (req : Req) (es :
       rw [show c' req.path = some (.file e) from hentry]
     rw [this]
   · simp only [Result.sym, hs, he, Option.map_some]
-    exact hl.info_url_trailer (bodyOf rx) t u hu hnl hparse
+    exact hl.info_url_trailer (bodyOf rx) t u hu hnl hshortE hparse
+
+/-! ### the real parser: the same theorems with NO assumption about the parser
+
+  `Real.model` is the byte-level model of the Breakpad symbol parser (C09/C10: `MdModel.SymLine`,
+  `MdModel.SymParse`) driven by the loop of `parse_async` (the blocks of `MdModel.Stream`).
+  `Real.laws : ParserLaws Real.model` is proved in `MdProofs.Lemmas.CacheFsReal`; `Real.feed_total` /
+  `Real.finish_total` there show that the model's `none` only ever stands for an `Err` of
+  `parse_async` (no panic outcome, fuel never exhausted, `Ok` only at the end of the response). -/
+
+/-- the three parser laws are theorems for the real parser model -/
+theorem real_parser_laws : ParserLaws Real.model := Real.laws
+
+/-- **cache_inv**, real parser: every entry is an initial one, or
+    `body ++ "INFO URL " ++ url ++ "\n"` for a response that arrived completely and that
+    `parse_async` parsed `Ok`, requested at that URL for that path -/
+theorem cache_inv_real (c0 : Cache) (reqs : List Req) (evs : List (Nat × Ev)) :
+    let w := (World.mk (P := Real.model) c0 (reqs.map fun r => (r, .start))).run evs
+    ∀ p n, w.cache p = some n → c0 p = some n ∨ GoodEntry Real.model reqs p n :=
+  cache_inv Real.laws c0 reqs evs
+
+/-- … and such an entry's body ends in a line feed and (all lines shorter than 80 KiB) is
+    accepted by `SymbolFile::from_bytes` -/
+theorem goodEntry_parses_real {reqs : List Req} {p : Path} {n : Node} (h : GoodEntry Real.model reqs p n) :
+    ∃ body u, n = .file (body ++ trailer u) ∧ EndsNl body ∧
+      (Real.shortLines body → (Real.parse body).isSome = true) :=
+  goodEntry_parses Real.laws h
+
+/-- **failure_leaves_nothing**, real parser -/
+theorem failure_leaves_nothing_real (c : Cache) (req : Req) (ph : Phase Real.model)
+    (hph : PhaseInv req ph) (es : List Ev)
+    (hfail : ∀ rx u, (runTask c req ph es).2 ≠ .done (.downloaded rx u)) :
+    (runTask c req ph es).1 = c :=
+  failure_leaves_nothing Real.laws c req ph hph es hfail
+
+/-- **downloaded_is_complete**, real parser -/
+theorem downloaded_is_complete_real (c : Cache) (req : Req) (es : List Ev) (rx : List Bytes) (u : Url)
+    (hd : (runTask (P := Real.model) c req .start es).2 = .done (.downloaded rx u)) :
+    u ∈ req.urls ∧ ∃ t, Real.model.stream rx = some (bodyOf rx, t) := by
+  rcases downloaded_is_complete Real.laws c req .start trivial es rx u hd with h | h
+  · cases h
+  · exact h
+
+/-- **temp_is_prefix**, real parser -/
+theorem temp_is_prefix_real (c : Cache) (req : Req) (es : List Ev) (t : Bytes)
+    (h : (runTask (P := Real.model) c req .start es).2.temp = some t) :
+    ∃ u rest temp nl ps rx, (runTask (P := Real.model) c req .start es).2 = .streaming u rest temp nl ps rx ∧
+      ∃ more, t ++ more = bodyOf rx :=
+  temp_is_prefix Real.laws c req es t h
+
+/-- **cached_equals_original**, real parser — "a later lookup served from the cache without network
+    access yields the same symbol table and URL as the original download", with no assumption about
+    the parser: a call ends as `downloaded rx u` and has put an entry `e` on a free name, every line
+    of `e` being shorter than 80 KiB (C10's domain). Then `e` is the body followed by the note, a
+    later call with no server finds `e`, and `SymbolFile::from_file` on `e` (`Real.parse`) returns
+    exactly the table `parse_async` returned for the download, with `url = Some(u)`. -/
+theorem cached_equals_original_real (c : Cache) (req : Req) (es : List Ev)
+    (rx : List Bytes) (u : Url) (e : Bytes) (hu : UrlClean u) (hshort : Real.shortLines e)
+    (hfree : c req.path = none)
+    (hrun : (runTask (P := Real.model) c req .start es).2 = .done (.downloaded rx u))
+    (hentry : (runTask (P := Real.model) c req .start es).1 req.path = some (.file e)) :
+    let c' := (runTask (P := Real.model) c req .start es).1
+    let later : Req := { path := req.path, localHit := none, urls := [] }
+    e = bodyOf rx ++ trailer u ∧
+    step (P := Real.model) c' later .start .lookup = (c', .done (.localFile e)) ∧
+    ∃ t, Real.model.stream rx = some (bodyOf rx, t) ∧ Real.parse e = some { t with url := some u } := by
+  intro c' later
+  obtain ⟨he, _⟩ := cached_entry_shape Real.laws c req es rx u e hfree hrun hentry
+  have hE : Real.shortLines (bodyOf rx ++ trailer u) := he ▸ hshort
+  have hB : Real.shortLines (bodyOf rx) := Real.ShortLines.prefix hE
+  obtain ⟨h1, h2, _, h4⟩ := cached_equals_original Real.laws c req es rx u e hu hB hE hfree hrun hentry
+  obtain ⟨_, t, hs⟩ := downloaded_is_complete_real c req es rx u hrun
+  refine ⟨h1, h2, t, hs, ?_⟩
+  have h4' : Real.parse e = (Real.model.stream rx).map fun r => Real.model.setUrl r.2 u := h4
+  rw [h4', hs]
+  rfl
+
+/-- … the same with the hypothesis split into its parts: all lines of the BODY shorter than 80 KiB and a
+    URL shorter than 80 KiB − 10 (that the body ends in a line feed is established by the commit step) -/
+theorem cached_equals_original_real' (c : Cache) (req : Req) (es : List Ev)
+    (rx : List Bytes) (u : Url) (e : Bytes) (hu : UrlClean u) (hshort : Real.shortLines (bodyOf rx))
+    (hulen : u.length + 10 < 81920) (hfree : c req.path = none)
+    (hrun : (runTask (P := Real.model) c req .start es).2 = .done (.downloaded rx u))
+    (hentry : (runTask (P := Real.model) c req .start es).1 req.path = some (.file e)) :
+    e = bodyOf rx ++ trailer u ∧
+    ∃ t, Real.model.stream rx = some (bodyOf rx, t) ∧ Real.parse e = some { t with url := some u } := by
+  obtain ⟨he, hnl⟩ := cached_entry_shape Real.laws c req es rx u e hfree hrun hentry
+  have hE : Real.shortLines e := he ▸ Real.shortLines_entry (bodyOf rx) u hshort hnl hulen
+  obtain ⟨h1, _, h3⟩ := cached_equals_original_real c req es rx u e hu hE hfree hrun hentry
+  exact ⟨h1, h3⟩
+
+theorem bodyOf_append (xs ys : List Bytes) : bodyOf (xs ++ ys) = bodyOf ys ++ bodyOf xs := by
+  induction xs with
+  | nil => simp [bodyOf]
+  | cons x xs ih => simp [bodyOf, ih]
+
+theorem bodyOf_reverse (xs : List Bytes) : bodyOf xs.reverse = xs.flatten := by
+  induction xs with
+  | nil => rfl
+  | cons x xs ih => simp [bodyOf_append, bodyOf, ih]
+
+/-- **download_is_cached_real** — the other direction of `cache_inv` for the real parser, under
+    EVERY chunking: a response whose body `SymbolFile::from_bytes` accepts (all lines shorter than
+    80 KiB, ending in a line feed), delivered completely in ANY chunks to a call that found nothing
+    locally, with no i/o failure and a free name, ends as `downloaded` and leaves exactly
+    `body ++ "INFO URL " ++ url ++ "\n"` at the cache path. (So `GoodEntry` is inhabited for every
+    such response and chunking; uses the completeness of the stream parse, `Real.stream_complete`.) -/
+theorem download_is_cached_real (c : Cache) (req : Req) (u : Url) (rest : List Url) (chunks : List Bytes)
+    (t : Sym.SymbolFile) (hurls : req.urls = u :: rest) (hlocal : req.localHit = none)
+    (hfree : c req.path = none) (hshort : Real.shortLines chunks.flatten) (hnl : EndsNl chunks.flatten)
+    (hparse : Real.parse chunks.flatten = some t) :
+    runTask (P := Real.model) c req .start
+      ([.lookup, .status 200 true] ++ (chunks.map fun b => Ev.chunk b true) ++ [.eof ⟨true, true, true, true⟩]) =
+    (c.set req.path (some (.file (chunks.flatten ++ trailer u))), .done (.downloaded chunks.reverse u)) := by
+  have hbody : bodyOf chunks.reverse = chunks.flatten := bodyOf_reverse chunks
+  have hs : Real.model.stream chunks.reverse = some (bodyOf chunks.reverse, t) :=
+    Real.stream_complete chunks.reverse t (hbody ▸ hshort) (hbody ▸ hparse)
+  -- the state after the chunks, and the end of the response
+  obtain ⟨s1, cb1, fin, hr, hfin, hcb⟩ : ∃ s1 cb1 fin, Real.model.runRev chunks.reverse = some (s1, cb1) ∧
+      Real.model.finish s1 = some (fin, t) ∧ cb1 ++ fin = chunks.flatten := by
+    unfold ParserModel.stream at hs
+    cases hr : Real.model.runRev chunks.reverse with
+    | none => rw [hr] at hs; simp at hs
+    | some r =>
+      obtain ⟨s1, cb1⟩ := r
+      rw [hr] at hs
+      dsimp only at hs
+      cases hf : Real.model.finish s1 with
+      | none => rw [hf] at hs; simp at hs
+      | some r2 =>
+        obtain ⟨fin, t'⟩ := r2
+        rw [hf] at hs
+        have hp : (cb1 ++ fin, t') = (bodyOf chunks.reverse, t) := Option.some.inj hs
+        have h1 : cb1 ++ fin = bodyOf chunks.reverse := (Prod.mk.inj hp).1
+        have h2 : t' = t := (Prod.mk.inj hp).2
+        refine ⟨s1, cb1, fin, rfl, ?_, ?_⟩
+        · exact h2 ▸ hf
+        · rw [h1, hbody]
+  have e1 : step (P := Real.model) c req .start .lookup = (c, .awaitStatus u rest) := by
+    simp [step, lookupLocal, hlocal, hfree, hurls, nextUrl]
+  have e2 : step (P := Real.model) c req (.awaitStatus u rest) (.status 200 true) =
+      (c, .streaming u rest (some []) false Real.model.init []) := rfl
+  have e3 := runTask_chunks (P := Real.model) c req u rest chunks [] Real.model.init [] s1 cb1 rfl
+    (by simpa using hr)
+  have hnl' : updNl (updNl false cb1) fin = true := by
+    rw [updNl_append, hcb]
+    obtain ⟨pre, hpre⟩ := hnl
+    rw [hpre]
+    simp [updNl]
+  have e4 : step (P := Real.model) c req (.streaming u rest (some cb1) (updNl false cb1) s1 (chunks.reverse ++ []))
+      (.eof ⟨true, true, true, true⟩) =
+      (commit c req.path u chunks.flatten ⟨true, true, true, true⟩, .done (.downloaded (chunks.reverse ++ []) u)) :=
+    step_eof_commit hfin (by simp [tee, hcb]) hnl'
+  rw [runTask_append, runTask_append]
+  simp only [runTask, e1, e2]
+  have e3' : runTask (P := Real.model) c req (.streaming u rest (some []) false Real.model.init [])
+      (chunks.map fun b => Ev.chunk b true) =
+      (c, .streaming u rest (some cb1) (updNl false cb1) s1 (chunks.reverse ++ [])) := e3
+  rw [e3', e4]
+  simp [commit, hfree]
+
+/-- a sufficient condition for the hypothesis: an entry shorter than 80 KiB has short lines -/
+theorem shortLines_of_length (e : Bytes) (h : e.length < 81920) : Real.shortLines e := by
+  intro a seg b he _
+  have : e.length = a.length + seg.length + b.length := by rw [he]; simp only [List.length_append]
+  show seg.length < 163840 / 2
+  omega
+
+/-! ### the opaque download path (`locate_file` → `fetch_lookup`): binaries and extra debug files
+
+  No parser is involved: an entry must be exactly the bytes of a completely received response (no
+  URL note), under the same temp-file discipline. Theorems about `MdModel.CacheFs.File`, for ANY
+  events, drop point and interleaving of calls. -/
+namespace File
+
+/-- An entry made by an opaque download: some call for that path ended as `fetched rx u` — which
+    only the END of a response produces (`File.step_cache`), `rx` being all the chunks of that
+    response — at one of its URLs, and the entry is exactly those bytes. -/
+def FileEntry (w : World) (p : Path) (n : Node) : Prop :=
+  ∃ r rx u, (r, Phase.done (.fetched rx u)) ∈ w.tasks ∧ r.path = p ∧ u ∈ r.urls ∧ n = .file (bodyOf rx)
+
+def WorldInv (init : Cache) (w : World) : Prop :=
+  (∀ t ∈ w.tasks, PhaseInv t.1 t.2) ∧
+  (∀ p n, init p = some n → w.cache p = some n) ∧
+  (∀ p n, w.cache p = some n → init p = some n ∨ FileEntry w p n)
+
+private theorem mem_set_of_mem {α : Type} {l : List α} {i : Nat} {x y y' : α} (h : x ∈ l) (hi : l[i]? = some y) :
+    x ∈ l.set i y' ∨ x = y := by
+  induction l generalizing i with
+  | nil => cases h
+  | cons a as ih =>
+    cases i with
+    | zero =>
+      simp at hi
+      rcases List.mem_cons.mp h with h1 | h1
+      · right; rw [h1, hi]
+      · left; simp [h1]
+    | succ i =>
+      simp at hi
+      rcases List.mem_cons.mp h with h1 | h1
+      · left; simp [h1]
+      · rcases ih h1 hi with h2 | h2
+        · left; simp [h2]
+        · right; exact h2
+
+private theorem World.step_inv (init : Cache) (w : World) (i : Nat) (e : Ev) (h : WorldInv init w) :
+    WorldInv init (w.step i e) := by
+  unfold World.step
+  cases hi : w.tasks[i]? with
+  | none => exact h
+  | some tk =>
+    obtain ⟨req, ph⟩ := tk
+    have hmem : (req, ph) ∈ w.tasks := List.mem_of_getElem? hi
+    have hph : PhaseInv req ph := h.1 _ hmem
+    -- finished calls stay in the task list
+    have hkeep : ∀ p n, FileEntry w p n →
+        FileEntry { cache := (File.step w.cache req ph e).1, tasks := w.tasks.set i (req, (File.step w.cache req ph e).2) } p n := by
+      intro p n ⟨r, rx, u, hm, h1, h2, h3⟩
+      refine ⟨r, rx, u, ?_, h1, h2, h3⟩
+      rcases mem_set_of_mem (y' := (req, (File.step w.cache req ph e).2)) hm hi with h4 | h4
+      · exact h4
+      · have : req = r ∧ ph = .done (.fetched rx u) := by cases h4; exact ⟨rfl, rfl⟩
+        obtain ⟨rfl, rfl⟩ := this
+        rw [step_done]
+        exact List.mem_set (List.getElem?_eq_some_iff.mp hi).1 _
+    refine ⟨?_, ?_, ?_⟩
+    · intro t ht
+      rcases List.mem_or_eq_of_mem_set ht with h1 | h1
+      · exact h.1 t h1
+      · subst h1; exact File.step_inv _ _ _ _ hph
+    · intro p n hn
+      exact step_keeps w.cache req ph e hph p n (h.2.1 p n hn)
+    · intro p n hn
+      simp only [] at hn
+      rcases step_cache w.cache req ph e hph with hc | ⟨u, rest, rx, io, _, _, hu, hfree, hd, hset⟩
+      · rw [hc] at hn
+        rcases h.2.2 p n hn with h1 | h1
+        · exact Or.inl h1
+        · exact Or.inr (hkeep p n h1)
+      · rw [hset] at hn
+        unfold Cache.set at hn
+        by_cases hp : p = req.path
+        · simp only [hp, if_true] at hn
+          right
+          refine ⟨req, rx, u, ?_, hp.symm, hu, by cases hn; rfl⟩
+          show (req, Phase.done (.fetched rx u)) ∈ w.tasks.set i (req, (File.step w.cache req ph e).2)
+          rw [hd]
+          exact List.mem_set (List.getElem?_eq_some_iff.mp hi).1 _
+        · simp only [hp, if_false] at hn
+          rcases h.2.2 p n hn with h1 | h1
+          · exact Or.inl h1
+          · exact Or.inr (hkeep p n h1)
+
+private theorem World.run_inv (init : Cache) (w : World) (evs : List (Nat × Ev)) (h : WorldInv init w) :
+    WorldInv init (w.run evs) := by
+  induction evs generalizing w with
+  | nil => exact h
+  | cons x xs ih =>
+    obtain ⟨i, e⟩ := x
+    exact ih _ (World.step_inv init w i e h)
+
+/-- **file_cache_inv** — "a file appears at a cache path only after the whole [file] was
+    downloaded": start any number of `locate_file` calls on any cache `c0`; after ANY interleaved
+    event sequence every entry of the cache is one `c0` already had, or exactly the bytes of a
+    response that was received completely (the call ended as `fetched`), for that path, at one of
+    the call's URLs — with no note appended; and everything `c0` had is still there, untouched
+    (`fetch_lookup` has no `remove_file`; `persist_noclobber` never replaces). -/
+theorem file_cache_inv (c0 : Cache) (reqs : List Req) (evs : List (Nat × Ev)) :
+    let w := (World.mk c0 (reqs.map fun r => (r, .start))).run evs
+    (∀ p n, c0 p = some n → w.cache p = some n) ∧
+    (∀ p n, w.cache p = some n → c0 p = some n ∨ FileEntry w p n) := by
+  intro w
+  have h0 : WorldInv c0 (World.mk c0 (reqs.map fun r => (r, .start))) := by
+    refine ⟨?_, fun _ _ h => h, fun _ _ h => Or.inl h⟩
+    intro t ht
+    obtain ⟨r, _, rfl⟩ := List.mem_map.mp ht
+    trivial
+  exact (World.run_inv c0 _ evs h0).2
+
+/-- **file_failure_leaves_nothing** — a call that does not end as `fetched` (error status, network
+    error, body shorter than announced, `create_cache_file` or a write failing, the name being
+    taken, drop at any point, still in flight) leaves the cache literally unchanged. -/
+theorem file_failure_leaves_nothing (c : Cache) (req : Req) (ph : Phase) (hph : PhaseInv req ph)
+    (es : List Ev) (hfail : ∀ rx u, (runTask c req ph es).2 ≠ .done (.fetched rx u)) :
+    (runTask c req ph es).1 = c := by
+  induction es generalizing c ph with
+  | nil => rfl
+  | cons e es ih =>
+    simp only [runTask] at hfail ⊢
+    rcases step_cache c req ph e hph with hc | ⟨u, rest, rx, io, _, _, _, _, hd, _⟩
+    · have := ih (step c req ph e).1 (step c req ph e).2 (File.step_inv c req ph e hph) hfail
+      rw [this, hc]
+    · exfalso
+      apply hfail rx u
+      rw [hd, runTask_done]
+
+/-- **file_fetched_entry** — a call that ends as `fetched rx u` has put exactly the received bytes at
+    its path, which was free, and a later network-less lookup finds that file. -/
+theorem file_fetched_entry (c : Cache) (req : Req) (es : List Ev) (rx : List Bytes) (u : Url)
+    (hrun : (runTask c req .start es).2 = .done (.fetched rx u)) :
+    c req.path = none ∧ (runTask c req .start es).1 = c.set req.path (some (.file (bodyOf rx))) ∧
+    lookupLocal (runTask c req .start es).1 { path := req.path, localHit := none, urls := [] } = some (bodyOf rx) := by
+  have key : ∀ (es : List Ev) (c0 : Cache) (ph : Phase), PhaseInv req ph → ph ≠ .done (.fetched rx u) →
+      (runTask c0 req ph es).2 = .done (.fetched rx u) →
+      c0 req.path = none ∧ (runTask c0 req ph es).1 = c0.set req.path (some (.file (bodyOf rx))) := by
+    intro es
+    induction es with
+    | nil => intro c0 ph _ hne hd; exact absurd hd hne
+    | cons e es ih =>
+      intro c0 ph hph hne hd
+      simp only [runTask] at hd ⊢
+      rcases step_cache c0 req ph e hph with hc | ⟨u', rest, rx', io, _, _, _, hfree, hd', hset⟩
+      · by_cases hdone : (step c0 req ph e).2 = .done (.fetched rx u)
+        · -- the step produced the result without touching the cache: impossible
+          exfalso
+          cases ph with
+          | done r => rw [step_done] at hdone; exact hne (by cases hdone; rfl)
+          | dropped => rw [step_dropped] at hdone; cases hdone
+          | start =>
+            cases e <;> simp [step] at hdone
+            · cases hl : lookupLocal c0 req <;> simp [hl] at hdone
+              cases hu : req.urls <;> simp [hu, nextUrl] at hdone
+          | awaitStatus u0 rest0 =>
+            cases e <;> simp [step] at hdone
+            · split at hdone
+              · cases rest0 <;> simp [nextUrl] at hdone
+              · split at hdone
+                · simp at hdone
+                · cases rest0 <;> simp [nextUrl] at hdone
+            · cases rest0 <;> simp [nextUrl] at hdone
+          | streaming u0 rest0 temp0 rx0 =>
+            cases e <;> simp [step] at hdone
+            · split at hdone
+              · simp at hdone
+              · cases rest0 <;> simp [nextUrl] at hdone
+            · -- eof with an unchanged cache: the fetch failed
+              have hc' := hc
+              simp only [step] at hc' hdone
+              cases hcp : c0 req.path with
+              | some n => simp [hcp] at hdone; cases rest0 <;> simp [nextUrl] at hdone
+              | none =>
+                simp only [hcp] at hc' hdone
+                split at hdone
+                · -- persistOk: the cache did change
+                  rename_i hpo
+                  simp only [hpo, if_true] at hc'
+                  have := congrFun hc' req.path
+                  simp [Cache.set, hcp] at this
+                · cases rest0 <;> simp [nextUrl] at hdone
+            · cases rest0 <;> simp [nextUrl] at hdone
+        · have := ih (step c0 req ph e).1 (step c0 req ph e).2 (File.step_inv c0 req ph e hph) hdone hd
+          rw [hc] at this ⊢
+          exact this
+      · rw [hd', runTask_done] at hd ⊢
+        have : rx' = rx ∧ u' = u := by simpa using hd
+        obtain ⟨rfl, rfl⟩ := this
+        exact ⟨hfree, hset⟩
+  obtain ⟨h1, h2⟩ := key es c .start trivial (by simp) hrun
+  refine ⟨h1, h2, ?_⟩
+  rw [h2]
+  simp [lookupLocal, Cache.set]
+
+/-- the future has completed or has been dropped -/
+def Phase.finished : Phase → Prop
+  | .done _ => True
+  | .dropped => True
+  | _ => False
+
+/-- **file_no_stray_temp** — once every call has completed or has been dropped the tmp directory is
+    empty; and dropping a call after ANY events leaves no temp file and does not touch the cache. -/
+theorem file_no_stray_temp (w : World) (h : ∀ t ∈ w.tasks, t.2.finished) : w.liveTemps = [] := by
+  unfold World.liveTemps
+  rw [List.filterMap_eq_nil_iff]
+  intro t ht
+  have := h t ht
+  cases hp : t.2 <;> simp [hp, Phase.finished] at this <;> rfl
+
+theorem file_no_stray_temp_after_drop (c : Cache) (req : Req) (ph : Phase) :
+    (step c req ph .drop).2.temp = none ∧ (step c req ph .drop).2.finished ∧ (step c req ph .drop).1 = c := by
+  cases ph <;> simp [step, Phase.temp, Phase.finished]
+
+/-- **file_temp_is_body** — a live temp file holds exactly the chunks received so far of the response
+    being downloaded: never anything that is not part of the file. -/
+theorem file_temp_is_body (c : Cache) (req : Req) (es : List Ev) (t : Bytes)
+    (h : (runTask c req .start es).2.temp = some t) :
+    ∃ u rest rx, (runTask c req .start es).2 = .streaming u rest t rx ∧ t = bodyOf rx := by
+  have hinv := runTask_inv c req .start es trivial
+  cases hph : (runTask c req .start es).2 with
+  | streaming u rest temp rx =>
+    rw [hph] at hinv h
+    have : temp = t := by simpa [Phase.temp] using h
+    subst this
+    exact ⟨u, rest, rx, rfl, hinv.2⟩
+  | start => rw [hph] at h; simp [Phase.temp] at h
+  | awaitStatus _ _ => rw [hph] at h; simp [Phase.temp] at h
+  | done _ => rw [hph] at h; simp [Phase.temp] at h
+  | dropped => rw [hph] at h; simp [Phase.temp] at h
+
+end File
 
 /-! ### the hypotheses are inhabited, and concrete runs -/
 
@@ -460,6 +874,143 @@ example :
 example :
     Toy.parse (l1 ++ l2 ++ l3 ++ trailer url0) =
       some { recs := (Toy.symOf (l1 ++ l2 ++ l3)).recs, url := some url0 } := by decide
+
+/-! #### the real parser on a concrete download
+
+  `MODULE Linux x86 ABC a\nFUNC 1000 10 0 f\n` arrives in two chunks split inside the FUNC line
+  (the body ends inside an open FUNC item, which the note then finishes): `parse_async` awaits
+  after each chunk (decided by evaluating the model), `finish` returns `Ok` (`Real.finish_total`
+  + evaluation of the loop), the entry is body ++ note, and — by `cached_equals_original_real` —
+  reading it back gives the downloaded table with the URL. -/
+
+private def rb1 : Bytes := asc "MODULE Linux x86 ABC a\nFUNC 10"
+private def rb2 : Bytes := asc "00 10 0 f\n"
+
+/-- the hypotheses of `cached_equals_original_real` are satisfiable, and its conclusion on that run -/
+example : ∃ t, Real.parse (rb1 ++ rb2 ++ trailer url0) = some { t with url := some url0 } ∧
+    Real.model.stream [rb2, rb1] = some (rb1 ++ rb2, t) := by
+  -- feeding the two chunks: the loop awaits after each, having handed the complete lines to the callback
+  have hA : (match Real.feed Real.init rb1 with
+      | some (s1, cb1) =>
+        (match Real.feed s1 rb2 with
+         | some (s2, cb2) =>
+           (cb1 ++ cb2 == rb1 ++ rb2) &&
+           (match Real.drain (Real.finishFuel s2) s2 with | some (.ok _, _) => true | _ => false)
+         | none => false)
+      | none => false) = true := by decide
+  cases hf1 : Real.feed Real.init rb1 with
+  | none => rw [hf1] at hA; cases hA
+  | some r1 =>
+    obtain ⟨s1, cb1⟩ := r1
+    rw [hf1] at hA
+    simp only [] at hA
+    cases hf2 : Real.feed s1 rb2 with
+    | none => rw [hf2] at hA; cases hA
+    | some r2 =>
+      obtain ⟨s2, cb2⟩ := r2
+      rw [hf2] at hA
+      simp only [Bool.and_eq_true, beq_iff_eq] at hA
+      obtain ⟨hcb, hdr⟩ := hA
+      have hrun : Real.model.runRev [rb2, rb1] = some (s2, cb1 ++ cb2) := by
+        show (match (match (some (Real.init, []) : Option (Real.LoopSt × Bytes)) with
+                | none => none
+                | some (s, cb) => (match Real.feed s rb1 with
+                  | none => none
+                  | some (s', cb') => some (s', cb ++ cb'))) with
+              | none => none
+              | some (s, cb) => (match Real.feed s rb2 with
+                | none => none
+                | some (s', cb') => some (s', cb ++ cb'))) = _
+        simp only [hf1, hf2, List.nil_append]
+      -- `finish`: total, and here not an `Err`
+      rcases Real.finish_total [rb2, rb1] s2 _ hrun with ⟨fin, t, hfin⟩ | ⟨k, l, sf, herr⟩
+      · have hbody := (Real.callback_prefix_real [rb2, rb1] s2 _ hrun).2 fin t hfin
+        have hstream : Real.model.stream [rb2, rb1] = some (rb1 ++ rb2, t) := by
+          unfold ParserModel.stream
+          rw [hrun]
+          simp only [hfin]
+          rw [hbody]
+          rfl
+        -- the run of the cache protocol: entry = body ++ note
+        have hf1' : Real.model.feed Real.model.init rb1 = some (s1, cb1) := hf1
+        have hf2' : Real.model.feed s1 rb2 = some (s2, cb2) := hf2
+        have hbody' : cb1 ++ cb2 ++ fin = rb1 ++ rb2 := hbody
+        have hnl : updNl (updNl (updNl false cb1) cb2) fin = true := by
+          rw [updNl_append, updNl_append, ← List.append_assoc, hbody']; decide
+        have hrun' : runTask (P := Real.model) empty req0 .start
+            [.lookup, .status 200 true, .chunk rb1 true, .chunk rb2 true, .eof okIo] =
+            (commit empty req0.path url0 (rb1 ++ rb2) okIo, .done (.downloaded [rb2, rb1] url0)) := by
+          have e1 : step (P := Real.model) empty req0 .start .lookup = (empty, .awaitStatus url0 [url1]) := rfl
+          have e2 : step (P := Real.model) empty req0 (.awaitStatus url0 [url1]) (.status 200 true) =
+              (empty, .streaming url0 [url1] (some []) false Real.model.init []) := rfl
+          simp only [runTask, e1, e2, step_chunk_some hf1', step_chunk_some hf2']
+          rw [step_eof_commit hfin (tt := rb1 ++ rb2) (by simp [tee, okIo, ← hbody']) hnl]
+        refine ⟨t, ?_, hstream⟩
+        have hentry : (runTask (P := Real.model) empty req0 .start
+            [.lookup, .status 200 true, .chunk rb1 true, .chunk rb2 true, .eof okIo]).1 req0.path =
+            some (.file (rb1 ++ rb2 ++ trailer url0)) := by rw [hrun']; rfl
+        obtain ⟨_, _, t', hs', hp'⟩ := cached_equals_original_real empty req0 _ [rb2, rb1] url0
+          (rb1 ++ rb2 ++ trailer url0) (by unfold UrlClean; decide) (shortLines_of_length _ (by decide)) rfl
+          (by rw [hrun']) hentry
+        rw [hstream] at hs'
+        have : t' = t := by cases hs'; rfl
+        rw [← this]; exact hp'
+      · rw [herr] at hdr; cases hdr
+
+/-- real parser: a corrupt line makes `parse_async` return `Err` (nothing will be cached) -/
+example : (Real.feed Real.init (asc "MODULE Linux x86 ABC a\n!garbage\n")).isNone = true := by decide
+
+/-- real parser: an unterminated last line — the complete line is handed to the callback, and the
+    end of the response is an `Err` (`unexpected EOF`) -/
+example : (match Real.feed Real.init (asc "MODULE Linux x86 ABC a\nPUB") with
+    | some (s, cb) => cb == asc "MODULE Linux x86 ABC a\n" && (Real.finish s).isNone
+    | none => false) = true := by decide
+
+/-! #### the opaque download path on concrete runs -/
+
+private def binReq : Req := { path := "a.pdb/ID/a.dll", localHit := none, urls := [url0, url1] }
+private def f1 : Bytes := [0x4d, 0x5a, 0x90, 0x00]
+private def f2 : Bytes := [0x03, 0x00, 0x0a]
+
+/-- success: the entry is exactly the received bytes (no note) -/
+example : File.runTask empty binReq .start [.lookup, .status 200 true, .chunk f1 true, .chunk f2 true, .eof okIo]
+    = (empty.set "a.pdb/ID/a.dll" (some (.file (f1 ++ f2))), .done (.fetched [f2, f1] url0)) := by
+  have : (File.runTask empty binReq .start [.lookup, .status 200 true, .chunk f1 true, .chunk f2 true, .eof okIo]).2
+      = .done (.fetched [f2, f1] url0) := by decide
+  obtain ⟨_, h2, _⟩ := File.file_fetched_entry empty binReq _ _ _ this
+  exact Prod.ext h2 this
+
+/-- a response cut short, then a 404 at the second server: nothing is cached, no temp file -/
+example : (File.runTask empty binReq .start [.lookup, .status 200 true, .chunk f1 true, .netError, .status 404 true]).2
+    = .done .notFound := by decide
+example : (File.runTask empty binReq .start [.lookup, .status 200 true, .chunk f1 true, .netError, .status 404 true]).1
+    "a.pdb/ID/a.dll" = none := by decide
+
+/-- a failing write ENDS this fetch (unlike the symbol path, which only gives up on caching): the
+    second server is asked, and its complete response is what gets cached -/
+example : (File.runTask empty binReq .start
+      [.lookup, .status 200 true, .chunk f1 false, .chunk f2 true, .status 200 true, .chunk f2 true, .eof okIo]).2
+    = .done (.fetched [f2] url1) := by decide
+
+/-- a directory (or anything else) at the name: `persist_noclobber` fails, the entry is never replaced -/
+example : (File.runTask (fun q => if q = "a.pdb/ID/a.dll" then some .dir else none) binReq .start
+      [.lookup, .status 200 true, .chunk f1 true, .eof okIo, .status 200 true, .chunk f1 true, .eof okIo]).2
+    = .done .notFound := by decide
+
+/-- dropped mid-body: no temp file, cache untouched -/
+example : File.runTask empty binReq .start [.lookup, .status 200 true, .chunk f1 true, .drop, .chunk f2 true, .eof okIo]
+    = (empty, .dropped) := by
+  have hd : (File.runTask empty binReq .start
+      [.lookup, .status 200 true, .chunk f1 true, .drop, .chunk f2 true, .eof okIo]).2 = .dropped := by decide
+  have h := File.file_failure_leaves_nothing empty binReq .start trivial
+    [.lookup, .status 200 true, .chunk f1 true, .drop, .chunk f2 true, .eof okIo]
+    (by intro rx u h; rw [hd] at h; cases h)
+  exact Prod.ext h hd
+
+/-- the machines the compiled model runs in the correspondence check are the step functions the
+    theorems are about -/
+example : Real.machine.step = step (P := Real.model) := rfl
+example : File.machine.step = File.step := rfl
 
 end examples
 
